@@ -392,9 +392,14 @@ def mutate(b, rng, t):
         elif kind < 0.85:
             d = t.shape[0]
             n = rng.randint(1, 3)
-            ix = [{"array": [rng.randrange(d) for _ in range(n)], "shape": [n]}]   # may repeat: last write wins
+            neg = rng.random() < 0.35
+            ix = [{"array": [rng.randrange(-d, d) if neg else rng.randrange(d) for _ in range(n)], "shape": [n]}]   # may repeat (also through a negative alias): last write wins
             if rng.random() < 0.4:
-                ix[0]["dtype"] = rng.choice(["int32", "int16", "uint8", "uint64", "int8"])   # any integer dtype is an index array for NumPy
+                ix[0]["dtype"] = rng.choice(["int32", "int16", "int8"] if neg else ["int32", "int16", "uint8", "uint64", "int8"])   # any integer dtype is an index array for NumPy
+            elif rng.random() < 0.3:
+                ix[0]["as_list"] = True
+            if rng.random() < 0.4:
+                ix[0]["lone"] = True
             if rng.random() < 0.25:
                 ix[0]["as_tensor"] = True          # ... and so is an integer Tensor
         else:
